@@ -122,6 +122,10 @@ def run(tier):
         d2 = [" ".join(p["toks"]) for p in g2.printed if p.get("n") == 2]
         rng.shuffle(d2)
         muts += d2[:40000]
+    # the harness materialises whole results: a token edit that turns the bounded series query into an unbounded one asks for
+    # 2^63 rows, which exhausts the harness's own memory cap (not a statement about the engine) - such texts are not submitted
+    unbounded = vlib.re.compile(r"generate_series\s*\(\s*1\s*,\s*9223372036854775807\s*\)(?!.*LIMIT)", vlib.re.S | vlib.re.I)
+    muts = [m for m in muts if not unbounded.search(m)]
     texts = [("mut", m) for m in dict.fromkeys(muts)] + [("runtime", s) for s in RUNTIME] + \
             [("illtyped", s) for s in ILLTYPED] + [("driver", s) for s in driver_inputs(rng, 150 if tier == "quick" else 3000)]
     # sessions of ~30 submissions; every submission is followed by the state observation and a probe
@@ -184,6 +188,10 @@ def run(tier):
         pos = k + len(OBS)
         for fam, sql in c["_chunk"]:
             o = st[pos][-1] if pos < len(st) and st[pos] else {"outcome": "missing"}
+            if o.get("outcome") == "error" and len(st[pos]) > 1:
+                # a text holding several statements: the earlier ones succeeded and may have changed the state before a later
+                # one failed; the submission as a whole is then a (partial) success as far as the state is concerned
+                o = dict(o, outcome="rows", partial=True)
             post = canon(st[pos + 1:pos + 1 + len(OBS)])
             pr = st[pos + 1 + len(OBS)][-1].get("outcome", "missing") if pos + 1 + len(OBS) < len(st) else "missing"
             lid = len(lines)
